@@ -83,6 +83,9 @@ def destroyLoop : List NodeId → NodeId → State → EditRes
 
 def destroy (d : NodeId) (S : State) : EditRes := destroyLoop G (S.loc d).ups d S
 
+/-- `d.destroy(streams=sel)`: the same loop over the given selection (`streams=None` means all upstreams: `destroy`). -/
+def destroySel (sel : List NodeId) (d : NodeId) (S : State) : EditRes := destroyLoop G sel d S
+
 /-! ### Liveness -/
 
 structure Live where
